@@ -64,6 +64,15 @@ Progs ==
   \cup UNION {{SliceArr(n, lo, hi) : lo \in Bounds(n) \cup {NoB}, hi \in Bounds(n) \cup {NoB}} : n \in 1..MaxLen}
   \cup UNION {{SliceStr(n, lo, hi) : lo \in Bounds(n) \cup {NoB}, hi \in Bounds(n) \cup {NoB}} : n \in Lens}
 
+\* errmsg is a string like any other: indexing and slicing it sees its current text after every conversion
+EM == EVar("errmsg", T_str)
+NV == EVar("n", T_num)
+S2N(cp) == SAsg(NV, ECallB("str2num", <<EStr(cp)>>))
+ErrObs == Pr(<<ECallB("len", <<EM>>), EIdx(EM, ENum(I(0))), EIdx(EM, EUn("-", ENum(I(2)))), ESlice(EM, <<ENum(I(9))>>, <<>>)>>)
+ErrmsgProgs == { <<SInfer("n", ENum(I(0))), S2N(a), ErrObs, S2N(b), ErrObs, S2N(c), Pr(<<ECallB("len", <<EM>>)>>), Pr(<<EIdx(EM, ENum(I(0)))>>)>> :
+                   a \in {<<113>>, <<228, 113, 113>>}, b \in {<<113, 113, 113, 113>>, <<8364>>}, c \in {<<49>>, <<122>>} }
+
 FamCases == {MkCase("FamIndex", "idx", Program(p, <<>>, <<>>)) : p \in Progs}
+            \cup {MkCase("FamIndex", "errmsg", Program(p, <<>>, <<>>)) : p \in ErrmsgProgs}
 FamInit == InitWith(FamCases)
 =============================================================================
